@@ -277,6 +277,14 @@ fn accepted_events<F: Fam>(out: &mut Out, origin: &str, bytes: &[u8], want_reenc
     }
 }
 
+pub fn spec_bytes_events<F: Fam>(out: &mut Out, mode: &str, bytes: &[u8]) {
+    match mode {
+        "reenc" => accepted_events::<F>(out, "spec-encoding", bytes, true, false),
+        "decoded" => accepted_events::<F>(out, "spec-encoding", bytes, false, true),
+        _ => strict_event::<F>(out, "spec-encoding", bytes),
+    }
+}
+
 fn accept_inputs<F: GenFam>(rng: &mut Rng, b: &mut Budget, n: usize, f: &mut dyn FnMut(&str, &[u8])) {
     for (_p, e) in gen_packets::<F>(rng, b, n, false) {
         f("valid", &e);
